@@ -241,7 +241,7 @@ func scenario(rng *vh.Rng, idx int, kind string, base string) Rec {
 			c := 0
 			ctl.CreatePlotted = func(string) bool { c++; return c <= np }
 			ctl.FreeOutcome = func(d *kp.FakeDB) (string, time.Duration) {
-				return rng.PickS("complete", "complete", "abort"), time.Duration(rng.Intn(3000)) * time.Microsecond
+				return rng.PickS("complete", "complete", "abort", "error"), time.Duration(rng.Intn(3000)) * time.Microsecond
 			}
 		}
 		sk, ids, err := newV1(dir, uint64(idx)+1, n, bl)
@@ -586,7 +586,12 @@ func main() {
 			defer wg.Done()
 			for {
 				mu.Lock()
-				if len(queue) == 0 {
+				if len(queue) == 0 || run.Violations() >= 8 {
+					// (enough witnesses: every further hung scenario would cost a full watchdog period)
+					if len(queue) > 0 {
+						run.Count("batches_skipped_after_8_violations", int64(len(queue)))
+						queue = nil
+					}
 					mu.Unlock()
 					return
 				}
